@@ -101,6 +101,12 @@ theorem resp_fidelity (wire : Resp → Resp) (hs : StdRespSpec wire) (ops : List
       intro e; apply hfr; rw [e]; simp
     rw [proxy_copy_headers _ k hw.1 hk2 hte, hs.hdr _ k hfr, srw_headers_preserved ops k hk hwf]
 
+/-- T1 (wiring the response-path model assumes): the stand-alone proxy serves its proxy handler
+    directly.  The agent's upload of a backend response is the *request* body of
+    `POST agent/response`, so any request-side wrapper in `main` (size cap, timeout handler, body
+    rewriting) would act on backend responses. -/
+theorem server_serves_proxy_directly : server_servedHandler = "newProxy()" := by decide
+
 -- non-vacuity: 103 then 200, two declared trailers in one value, an undeclared trailer, a hop-by-hop header
 example : output [.setHeader [76,105,110,107] [120], .writeHeader 103, .delHeader [76,105,110,107],
     .setHeader [84,114,97,105,108,101,114] [88,45,65,44,32,88,45,66], .setHeader [67,111,110,110,101,99,116,105,111,110] [120],
